@@ -20,12 +20,21 @@ demo = os.path.join(deliver, "demo.py")
 sh(["git", "-C", wt, "checkout", "--", "pvl"])
 shutil.copy(demo, os.path.join(wt, "_demo.py"))
 r0 = sh([PY, "_demo.py"], cwd=wt)
+base = sh(["git", "-C", wt, "rev-parse", "--short", "HEAD"]).stdout.strip()
 ap = sh(["git", "-C", wt, "apply", patch])
 if ap.returncode:
-    print("PATCH DOES NOT APPLY", ap.stdout); sys.exit(2)
+    print("PATCH DOES NOT APPLY to %s" % base, ap.stdout)
+    dst = os.path.join(V, "seeded", sid, "meta.json")
+    if os.path.exists(dst):
+        m = json.load(open(dst))
+        m["superseded"] = ("the patch no longer applies to /repo at %s (a later fix: commit touched the same lines); "
+                           "the results below are from the tree it was written for" % base)
+        json.dump(m, open(dst, "w"), indent=1)
+    os.remove(os.path.join(wt, "_demo.py"))
+    sys.exit(2)
 r1 = sh([PY, "_demo.py"], cwd=wt)
 bl = sh([PY, os.path.join(V, "tools", "baseline_check.py"), wt])
-meta = {"id": sid, "breaks_property": sid.split("-")[0],
+meta = {"id": sid, "breaks_property": sid.split("-")[0], "evaluated_against_repo_commit": base,
         "demo_on_pristine_exit": r0.returncode, "demo_with_change_exit": r1.returncode,
         "stable_tests_with_change": bl.stdout.strip().split("\n")[0],
         "files_touched": sorted(set(l[6:] for l in open(patch) if l.startswith("+++ b/"))),
